@@ -79,16 +79,17 @@ def is_restricted(point, old_point, node_dict):
     if not "rw_options" in node_dict:
         return True
 
-    normal, ref_angle = node_dict["rw_options"][0]
-    # check condition 1
-    sign = np.sign(np.dot(normal, point - old_point))
-    if sign != np.sign(ref_angle):
-        return False
+    # every restriction declared for the residue has to hold
+    for normal, ref_angle in node_dict["rw_options"]:
+        # check condition 1
+        sign = np.sign(np.dot(normal, point - old_point))
+        if sign != np.sign(ref_angle):
+            return False
 
-    # check condition 2
-    angle = _vector_angle_degrees(normal, point - old_point)
-    if angle > np.abs(ref_angle):
-        return False
+        # check condition 2
+        angle = _vector_angle_degrees(normal, point - old_point)
+        if angle > np.abs(ref_angle):
+            return False
     return True
 
 
